@@ -241,11 +241,21 @@ func subjectFor(r *mon.Rec, kind string, idx int, typed map[int]string) subject 
 	switch kind {
 	case "v4gen":
 		return subject{"generated DHCPv4 packet", func() []op {
-			p, _ := gen4.Packet(seedRng(), 6)
+			rng := seedRng()
+			p, _ := gen4.Packet(rng, 6)
 			for c, v := range p.Options {
 				if len(v) > 300 {
 					p.Options[c] = v[:300]
 				}
+			}
+			// purity must hold for any value a caller can build, also outside the encodable domain of C01:
+			// over-long hardware addresses (e.g. 20-byte IPoIB), 16-byte non-mapped addresses, names beyond capacity
+			switch rng.IntN(8) {
+			case 0:
+				p.ClientHWAddr = gen4.Bytes(rng, 17+rng.IntN(8))
+			case 1:
+				p.ServerHostName = string(gen4.Bytes(rng, 64+rng.IntN(10)))
+				p.BootFileName = string(gen4.Bytes(rng, 128+rng.IntN(10)))
 			}
 			return opsOf(p)
 		}, true}
